@@ -54,7 +54,7 @@ var cfForms = []string{"if", "ifelse-then", "ifelse-else", "elseif-mid", "elseif
 
 // further forms, combined with a representative subset of the forms above (cfExtraPartners): loop and
 // branch conditions whose last operand is negated, switches with an empty clause that matches
-var cfExtraForms = []string{"while-and-not", "while-or-not", "if-or-not", "switch-empty-case", "tagless-empty-case", "switch-many-values", "for-call-cond"}
+var cfExtraForms = []string{"while-and-not", "while-or-not", "if-or-not", "switch-empty-case", "tagless-empty-case", "switch-many-values", "for-call-cond", "elseif3-third", "elseif3-else"}
 var cfExtraPartners = []string{"if", "while", "for3", "range", "switch-mid", "tagless-default"}
 
 func cfIsLoop(f string) bool {
@@ -88,6 +88,17 @@ func (b *cfBuilder) wrap(form string, inner []*S) []*S {
 		body = []*S{{K: "if", Cond: chooseIs1(), Then: []*S{b.m()}, HasElse: true, Else: []*S{{K: "if", Cond: chooseIs1(), Then: b.after(inner), HasElse: true, Else: []*S{b.m()}}}}}
 	case "elseif-last":
 		body = []*S{{K: "if", Cond: chooseIs1(), Then: []*S{b.m()}, HasElse: true, Else: []*S{{K: "if", Cond: chooseIs1(), Then: []*S{b.m()}, HasElse: true, Else: b.after(inner)}}}}
+	case "elseif3-third", "elseif3-else":
+		// a chain with three conditions: the statements sit in the third branch or in the final else
+		third, last := []*S{b.m()}, []*S{b.m()}
+		if form == "elseif3-third" {
+			third = b.after(inner)
+		} else {
+			last = b.after(inner)
+		}
+		body = []*S{{K: "if", Cond: chooseIs1(), Then: []*S{b.m()}, HasElse: true, Else: []*S{
+			{K: "if", Cond: chooseIs1(), Then: []*S{b.m()}, HasElse: true, Else: []*S{
+				{K: "if", Cond: chooseIs1(), Then: third, HasElse: true, Else: last}}}}}}
 	case "forever":
 		k := b.name("k")
 		body = []*S{{K: "decl", Names: []string{k}, Exprs: []*E{lit(TInt, 0)}},
